@@ -200,6 +200,21 @@ pub fn run(input: &str, output: &str, opts: Opts) -> std::io::Result<i32> {
             emit(json!({"ev":"idle","waited_us":start.elapsed().as_micros() as u64,
                 "delay_us": if last > done_us { last - done_us } else { 0 }}));
         }
+        // "at the latest when a flush() called afterwards returns": every third round calls flush() once,
+        // at once - it may well overlap a cycle of the background collector - and what was due when it was
+        // called must be there when it returns
+        if round % 3 == 1 {
+            emit(json!({"ev":"call","t":0,"op":"flush"}));
+            let (tx, rx) = std::sync::mpsc::channel();
+            std::thread::spawn(move || {
+                fastrace::flush();
+                let _ = tx.send(());
+            });
+            if rx.recv_timeout(Duration::from_secs(10)).is_err() {
+                return hung(&mut out, round, "flush()");
+            }
+            emit(json!({"ev":"ret","t":0,"op":"flush"}));
+        }
         // two report intervals and two explicit cycles later everything must have arrived
         std::thread::sleep(Duration::from_micros(opts.interval_us * 3 + 500));
         if !flush_twice() {
